@@ -226,3 +226,116 @@ Lemma default_path_repaired :
   dflt_new (with_dflt (tab_hi 256)) [47; 99; 100] true = 0%nat /\
   dflt_new (with_dflt (tab_hi 256)) [47; 99; 100] false = 0%nat.
 Proof. vm_compute. repeat split; reflexivity. Qed.
+
+(* ---- names with alternatives ---------------------------------------------------
+   before "fix: a port table whose names hold alternatives ... got a perfect
+   hash" generate_minimal_hash looked for '#' only, and before "fix: the linear
+   scan of Ports::dispatch appended the text of the port's name ..." the scan
+   took the matched text of the message for '#' names only. *)
+Definition tables_of_noalt (T : table) : option hashtab :=
+  if existsb (fun p => mem 35 (fst p)) (t_ports T) then None
+  else if existsb (fun p => inner_slash (fst p)) (t_ports T) then None
+  else match t_ports T, t_pos T with
+       | [], _ => None
+       | _, [] => None
+       | _, _ =>
+           match all_some (map (hash_of (t_pos T) (t_assoc T)) (keys_of T)) with
+           | None => None
+           | Some hs => if has_dups hs then None
+                        else Some {| h_pos := t_pos T; h_assoc := t_assoc T; h_remap := find_remap hs |}
+           end
+       end.
+
+Fixpoint scan_loc_noalt (cb : callback) (tid : Z) (ports : list (str * bool)) (i : Z)
+         (m args : str) (obj0 : Z) (old : str) (st : dstate) : dstate :=
+  match ports with
+  | [] => st
+  | (name, sub) :: r =>
+      let st' :=
+        match rtosc_match name m args with
+        | Some (true, Some m_end) =>
+            let st1 := if sub then st else inc_matches st in
+            let app := if mem 35 name then firstn (length m - length m_end) m else upto_colon name in
+            let st2 := match loc st1 with
+                       | Some l => set_loc st1 (Some (if mem 35 name then old ++ app else l ++ app))
+                       | None => st1
+                       end in
+            restore old (set_obj (cb i m (set_port st2 (Some (tid, i)))) obj0)
+        | Some (true, None) => add_log st EvError
+        | Some (false, _) => st
+        | None => add_log st EvError
+        end in
+      scan_loc_noalt cb tid r (i + 1) m args obj0 old st'
+  end.
+
+Definition dispatch_table_noalt (cb : callback) (dh : str -> dstate -> dstate) (T : table)
+           (m args : str) (base : bool) (st : dstate) : dstate :=
+  let obj0 := obj st in
+  let st1 := if base then
+               let s := set_matches st 0 in
+               match loc s with Some _ => set_loc s (Some []) | None => s end
+             else st in
+  let m1 := if base then match m with c :: t => if c =? 47 then t else m | [] => m end else m in
+  match loc st1 with
+  | None =>
+      let st' := scan_noloc cb (t_id T) (t_ports T) 0 m1 args obj0 st1 in
+      if any_match (t_ports T) m1 args then st'
+      else if t_dflt T then call_default_noloc dh m1 obj0 st' else st'
+  | Some l0 =>
+      let l := match l0 with [] => [47] | _ => l0 end in
+      let st2 := set_loc st1 (Some l) in
+      match tables_of_noalt T with
+      | None =>
+          let st' := scan_loc_noalt cb (t_id T) (t_ports T) 0 m1 args obj0 l st2 in
+          if any_match (t_ports T) m1 args then st'
+          else if t_dflt T then call_default dh m1 obj0 st' else st'
+      | Some H => lookup_loc cb dh T H m1 args obj0 l st2
+      end
+  end.
+
+(* which ports ran, and the loc each of them saw *)
+Fixpoint seen (l : list event) : list (Z * option str) :=
+  match l with
+  | [] => []
+  | Ev _ i _ _ lc _ _ :: r => seen r ++ [(i, lc)]
+  | _ :: r => seen r
+  end.
+Definition seen_noalt (T : table) (m : str) (with_loc : bool) : list (Z * option str) :=
+  seen (log (dispatch_table_noalt (leaf_cb T) no_dh T m [] true (init_state with_loc 1))).
+Definition seen_new (T : table) (m : str) (with_loc : bool) : list (Z * option str) :=
+  seen (log (dispatch_table (leaf_cb T) no_dh T m [] true (init_state with_loc 1))).
+
+(* { {ab,cd}x, ef, gh }: pos = [0], assoc e = 1 (what the library's search
+   returns): the keys hash to 8, 3, 2 - no collision, the table was hashed *)
+Definition tab_alt_hashed : table :=
+  {| t_id := 0; t_dflt := false;
+     t_ports := [([123; 97; 98; 44; 99; 100; 125; 120], false); ([101; 102], false); ([103; 104], false)];
+     t_pos := [0]; t_assoc := repeat 0 101 ++ [1] ++ repeat 0 154 |}.
+(* { {ab,cd}x, e#2 }: never hashed *)
+Definition tab_alt_lin : table :=
+  {| t_id := 0; t_dflt := false;
+     t_ports := [([123; 97; 98; 44; 99; 100; 125; 120], false); ([101; 35; 50], false)];
+     t_pos := []; t_assoc := [] |}.
+
+(* /abx reaches {ab,cd}x without a location buffer and nothing with one; the
+   address /{ab,cd}x - the text of the name - reaches it with a buffer only;
+   in the unhashed table /cdx is delivered, but the callback sees the loc
+   "/{ab,cd}x" *)
+Lemma alt_names_refuted :
+  seen_noalt tab_alt_hashed [47; 97; 98; 120] false = [(0, None)] /\
+  seen_noalt tab_alt_hashed [47; 97; 98; 120] true = [] /\
+  seen_noalt tab_alt_hashed [47; 123; 97; 98; 44; 99; 100; 125; 120] false = [] /\
+  seen_noalt tab_alt_hashed [47; 123; 97; 98; 44; 99; 100; 125; 120] true =
+    [(0, Some [47; 123; 97; 98; 44; 99; 100; 125; 120])] /\
+  seen_noalt tab_alt_lin [47; 99; 100; 120] true = [(0, Some [47; 123; 97; 98; 44; 99; 100; 125; 120])].
+Proof. vm_compute. repeat split; reflexivity. Qed.
+
+(* repaired: the same callbacks with and without buffer, loc = the address *)
+Lemma alt_names_repaired :
+  seen_new tab_alt_hashed [47; 97; 98; 120] false = [(0, None)] /\
+  seen_new tab_alt_hashed [47; 97; 98; 120] true = [(0, Some [47; 97; 98; 120])] /\
+  seen_new tab_alt_hashed [47; 123; 97; 98; 44; 99; 100; 125; 120] false = [] /\
+  seen_new tab_alt_hashed [47; 123; 97; 98; 44; 99; 100; 125; 120] true = [] /\
+  seen_new tab_alt_lin [47; 99; 100; 120] true = [(0, Some [47; 99; 100; 120])] /\
+  tables_of tab_alt_hashed = None.
+Proof. vm_compute. repeat split; reflexivity. Qed.
